@@ -559,11 +559,8 @@ class SymReal:
 
     # numpy object-dtype ufuncs call these methods
     def sqrt(s):
-        e = engine()
-        e.assume(s.t >= 0, kind="domain")
-        r = uf("sqrt")(s.t)
-        e.assume(z3.And(r >= 0, r * r == s.t), kind="axiom")
-        return SymReal(r)
+        engine().assume(s.t >= 0, kind="domain")
+        return SymNorm(s.t)
 
     def exp(s):
         r = uf("exp")(s.t)
@@ -623,7 +620,34 @@ class SymNorm(SymReal):
         # a tolerance, and comparisons are decided on the squares below (no axiom needed, no sqrt)
         SymReal.__init__(self, uf("sqrt")(sq_term))
 
+    def _axiom(self):
+        """arithmetic use (not a comparison): constrain the uninterpreted root by its defining property"""
+        e = engine()
+        key = ("sqrt_axiom", self.t.get_id())
+        if key not in e.uf_apps:
+            e.uf_apps[key] = True
+        # assumptions are per path: (re-)assert on every use, the engine deduplicates nothing but it is cheap
+        e.assume(z3.And(self.t >= 0, self.t * self.t == self.sq), kind="axiom")
+
+    def _bin(self, o, f):
+        self._axiom()
+        if isinstance(o, SymNorm):
+            o._axiom()
+        return SymReal._bin(self, o, f)
+
+    def _rbin(self, o, f):
+        self._axiom()
+        return SymReal._rbin(self, o, f)
+
+    def __neg__(self):
+        self._axiom()
+        return SymReal(-self.t)
+
     def _ncmp(self, o, strict, less):
+        if isinstance(o, SymNorm):  # sqrt is monotone: compare the radicands
+            if less:
+                return SymBool(self.sq < o.sq if strict else self.sq <= o.sq)
+            return SymBool(self.sq > o.sq if strict else self.sq >= o.sq)
         ot = to_term(o)
         if ot is None:
             return NotImplemented
